@@ -16,7 +16,14 @@ const MATES: [&str; 6] = [
     "rnb1kbnr/pppp1ppp/8/4p3/6Pq/5P2/PPPPP2P/RNBQKBNR w KQkq -",
     "r1bqkb1r/pppp1Qpp/2n2n2/4p3/2B1P3/8/PPPP1PPP/RNB1K1NR b KQkq -",
 ];
-const STALEMATES: [&str; 3] = ["7k/5Q2/6K1/8/8/8/8/8 b - -", "8/8/8/8/8/5k2/5q2/7K w - -", "k7/P7/K7/8/8/8/8/8 b - -"];
+const STALEMATES: [&str; 5] = [
+    "7k/5Q2/6K1/8/8/8/8/8 b - -",
+    "8/8/8/8/8/5k2/5q2/7K w - -",
+    "k7/P7/K7/8/8/8/8/8 b - -",
+    // the stalemated king stands on a square its own pawn "attacks"
+    "8/6p1/6Pk/7P/6K1/8/8/8 b - -",
+    "8/8/8/6k1/7p/6pK/6P1/8 w - -",
+];
 
 fn rec_mirror(file: &mut dyn Write, pos: &Pos, mm: i64) -> bool {
     let mir = mirror(pos);
@@ -73,6 +80,28 @@ pub fn main(args: &[String]) {
                 (0..=255u8).map(|d| evaluate::score(&mut board, &mut gen, turn, d) as i64).collect::<Vec<_>>()
             });
             match r {
+                Ok(sc) => all.push((pos.clone(), kind, sc)),
+                Err(p) => {
+                    writeln!(file, "{}", json!({"t": "panic-eval", "pos": pos.to_json(), "where": p})).unwrap();
+                    n += 1;
+                }
+            }
+            // the same with a generator that has just answered check tests and attack maps for BOTH colours on
+            // this very board, with either side to move (as the search does around every leaf)
+            let r2 = guarded(|| {
+                let mut used = MoveGenerator::with_cache_capacity(1 << 10);
+                let mut board = pos.setup();
+                let turn = board.turn();
+                for _ in 0..2 {
+                    for c in [chess::board::color::Color::White, chess::board::color::Color::Black] {
+                        let _ = evaluate::player_is_in_check(&board, &mut used, c);
+                        let _ = used.get_attack_targets(&board, c);
+                    }
+                    board.toggle_turn();
+                }
+                (0..=40u8).map(|d| evaluate::score(&mut board, &mut used, turn, d) as i64).collect::<Vec<_>>()
+            });
+            match r2 {
                 Ok(sc) => all.push((pos, kind, sc)),
                 Err(p) => {
                     writeln!(file, "{}", json!({"t": "panic-eval", "pos": pos.to_json(), "where": p})).unwrap();
